@@ -39,8 +39,10 @@ func c07Oracle(c *vlib.Case) *vlib.Violation {
 			return vlib.V("c07:line-column", "error %q at %s index %d: reported line %d column %d, the index really has line %d column %d (%s line endings)",
 				o.Msg, o.File, o.Index, o.Line, o.Column, line, col, vlib.LineConvention(content))
 		}
-		if o.Quote != quote && !(quote == "" && strings.Trim(o.Quote, " \t\r\n") == "") {
-			// (a line of blanks only may be quoted as it is or as the empty string)
+		blankOnly := quote == "" || quote == "..."
+		if o.Quote != quote && !(blankOnly && strings.TrimLeft(o.Quote, " \t\r\n") == quote) {
+			// (a line - or the quoted first 197 bytes of a long line - made of blanks only may be quoted as it is or with
+			// the blanks trimmed: the dependency's TrimSpacesFromLeft leaves an all-blank text untouched)
 			return vlib.V("c07:quote", "error %q at %s index %d (line %d): quote %q, the line really reads %q", o.Msg, o.File, o.Index, line, clipStr(o.Quote, 260), clipStr(quote, 260))
 		}
 	}
